@@ -192,6 +192,8 @@ type btEnv struct {
 	bytesVar string          // the Go name of the string/slice parameter; Lean name is always `data`
 	ints     map[string]bool // int variables in scope (Lean names are the same)
 	tables   map[string]bool // package-level byte tables
+	bools    map[string]bool // bool variables in scope (Lean names are the same)
+	runesVar string          // the Go name of a []rune variable; Lean name is always `runes`
 }
 
 const (
@@ -199,7 +201,11 @@ const (
 	btByte
 	btBool
 	btLit // an untyped integer literal: takes the type of the other operand
+	btRune
 )
+
+// unicodeFns are the functions of package unicode the models take as parameters (UnicodeFns).
+var unicodeFns = map[string]string{"IsLower": "isLower", "IsUpper": "isUpper", "IsDigit": "isDigit", "IsLetter": "isLetter", "IsSpace": "isSpace"}
 
 // checked translates e to a term of type `Except Fault _` over the GoExpr combinators.
 func (g *btGen) checked(e ast.Expr, env *btEnv) (string, int, error) {
@@ -209,6 +215,9 @@ func (g *btGen) checked(e ast.Expr, env *btEnv) (string, int, error) {
 	case *ast.Ident:
 		if env.ints[e.Name] {
 			return "(gInt " + e.Name + ")", btInt, nil
+		}
+		if env.bools[e.Name] {
+			return "(gBool " + e.Name + ")", btBool, nil
 		}
 	case *ast.BasicLit:
 		if k, ok := g.intLit(e); ok {
@@ -220,6 +229,16 @@ func (g *btGen) checked(e ast.Expr, env *btEnv) (string, int, error) {
 				return "(gLen data)", btInt, nil
 			}
 		}
+		if sel, ok := e.Fun.(*ast.SelectorExpr); ok && btIsIdent(sel.X, "unicode") && unicodeFns[sel.Sel.Name] != "" && len(e.Args) == 1 {
+			arg, t, err := g.checked(e.Args[0], env)
+			if err != nil {
+				return "", 0, err
+			}
+			if t != btRune {
+				return "", 0, g.errf(e, "argument of unicode.%s is not a rune", sel.Sel.Name)
+			}
+			return "(gU U." + unicodeFns[sel.Sel.Name] + " " + arg + ")", btBool, nil
+		}
 	case *ast.IndexExpr:
 		x, ok := e.X.(*ast.Ident)
 		if !ok {
@@ -228,6 +247,15 @@ func (g *btGen) checked(e ast.Expr, env *btEnv) (string, int, error) {
 		idx, t, err := g.checked(e.Index, env)
 		if err != nil {
 			return "", 0, err
+		}
+		if env.runesVar != "" && x.Name == env.runesVar {
+			if t == btLit {
+				idx, t = "(gInt "+idx+")", btInt
+			}
+			if t != btInt {
+				return "", 0, g.errf(e, "index of %s is not an int", x.Name)
+			}
+			return "(gIdxR runes " + idx + ")", btRune, nil
 		}
 		if x.Name == env.bytesVar {
 			if t == btLit {
